@@ -22,3 +22,12 @@ package config
 //@   counts yield
 //@   callpre yield: @pair_as_configured: $0 == mapping.Local && $1 == mapping.Remote
 //@   loop 1 invariant @every_pair_offered: calls(yield) == $i
+
+// C14: likewise for the per-namespace search-attribute pairs.
+//@ extern $yield@(*SATranslationConfig).AsLocalToRemoteSATranslation$1
+//@   assigns nothing
+//@ contract (*SATranslationConfig).AsLocalToRemoteSATranslation$1
+//@   props C14 C13
+//@   counts yield
+//@   callpre yield: @pair_as_configured: $0 == attrPair.LocalName && $1 == attrPair.RemoteName
+//@   loop 1 invariant @every_pair_offered: calls(yield) == $i
